@@ -71,7 +71,7 @@ UNITS = [
             assert(blobs@[k] == *blob);
         }
         let ghost rem0 = data.data@;"""),
-             ("after", "let mut blob_data = be.decrypt(", """        proof {
+             ("after", "blob_data = be.decrypt(", """        proof {
             let k = it.index@;
             let c = data0.subrange(start_of(blobs@, k), start_of(blobs@, k) + blob.location.length as int);
             assert(rem0.subrange(0, blob.location.length as int) =~= c);
